@@ -146,8 +146,8 @@ def coordinate_display_formats(repo):
 
 @frame("peek_while_is_the_plain_loop")
 def peek_while_is_the_plain_loop(repo):
-    """The units inline the combinators peek_while / peek_while_kind at their call sites in list_value / object_value; this checks that the
-    combinators still are the plain loops that were inlined (modulo debug_assert! and the `before` clone used only by it)."""
+    """The unit inlines the combinators peek_while / peek_while_kind / parse_separated_list at every call site in the grammar; this checks that
+    the combinators still are the plain loops that were inlined (modulo debug_assert! and the `before` clone used only by it)."""
     sf = SourceFile(repo, "crates/apollo-parser/src/parser/mod.rs")
     def norm(name):
         it = sf.find("fn", name, r"Parser<'input>")
@@ -159,8 +159,12 @@ def peek_while_is_the_plain_loop(repo):
     want_a = "pub(crate) fn peek_while( &mut self, mut run: impl FnMut(&mut Parser, TokenKind) -> ControlFlow<()>, ) { while let Some(kind) = self.peek() { match run(self, kind) { ControlFlow::Break(()) => break, ControlFlow::Continue(()) => { } } } }"
     b = norm("peek_while_kind")
     want_b = "pub(crate) fn peek_while_kind(&mut self, expect: TokenKind, mut run: impl FnMut(&mut Parser)) { while let Some(kind) = self.peek() { if kind != expect { break; } run(self); } }"
+    c = norm("parse_separated_list")
+    want_c = "pub(crate) fn parse_separated_list( &mut self, separator: TokenKind, separator_syntax: SyntaxKind, mut run: impl FnMut(&mut Parser), ) { if matches!(self.peek(), Some(kind) if kind == separator) { self.bump(separator_syntax); } run(self); self.peek_while_kind(separator, |p| { p.bump(separator_syntax); run(p); }); }"
     if a != want_a:
         return False, "peek_while changed: %s" % a
     if b != want_b:
         return False, "peek_while_kind changed: %s" % b
-    return True, "peek_while / peek_while_kind are the plain peek-loops that the units inline into list_value / object_value"
+    if c != want_c:
+        return False, "parse_separated_list changed: %s" % c
+    return True, "peek_while / peek_while_kind / parse_separated_list are the plain loops that the unit inlines at their call sites"
